@@ -25,7 +25,25 @@ UNPROVED = []
 
 SUITES = {k: S.SUITES[k] for k in ("mp_metrics", "mp_num_true_positives", "mp_resample", "mp_accuracy",
                                     "mp_err_score", "mp_evaluate", "mp_small", "mp_validate")}
-classify = S.classify
+# stream F: excerpts of the multi-f0 fixture files on their own 10 ms frame grid
+from suites import fixtures as _FX  # noqa: E402
+if "multipitch" in _FX.SUITES:
+    SUITES["fixtures.multipitch"] = _FX.SUITES["multipitch"]
+RULE += "; " + _FX.RULE_NOTE
+
+
+def classify(suite, d):
+    if suite == "fixtures.multipitch":
+        i = d.get("info") or {}
+        op = d.get("op")
+        if op in ("multipitch.metrics", "multipitch.evaluate") and "ref_time" in i:
+            return S.classify("mp_metrics", d)
+        if op == "multipitch.compute_num_true_positives":
+            return "multipitch.compute_num_true_positives", {k: i[k] for k in ("ref_midi", "est_midi", "window", "chroma")}
+        if op == "multipitch.resample_multipitch":
+            return "multipitch.resample_multipitch", {k: i[k] for k in ("times", "freqs", "target")}
+        return None
+    return S.classify(suite, d)
 
 EPS = 1e-9
 NAMES = ["precision", "recall", "accuracy", "e_sub", "e_miss", "e_fa", "e_tot"]
